@@ -19,6 +19,7 @@ import (
 	"github.com/GuanceCloud/grok"
 	"github.com/GuanceCloud/platypus/pkg/inimpl/guancecloud/funcs"
 	"github.com/antchfx/xmlquery"
+	"github.com/antchfx/xpath"
 	conv "github.com/spf13/cast"
 )
 
@@ -294,8 +295,14 @@ func answer(q string) (res string) {
 		if err != nil {
 			return "err:parse"
 		}
-		dest, err := xmlquery.Query(doc, unhexs(a[0]))
-		if err != nil || dest == nil {
+		// compiled for this query (xmlquery's process-wide cache of compiled expressions shares iterator state
+		// between evaluations of a parenthesised node set: an engine answer must not depend on earlier questions)
+		compiled, err := xpath.Compile(unhexs(a[0]))
+		if err != nil {
+			return "err:query"
+		}
+		dest := xmlquery.QuerySelector(doc, compiled)
+		if dest == nil {
 			return "err:query"
 		}
 		return okHex(dest.InnerText())
